@@ -1002,6 +1002,10 @@ func changeListOrMapValue(ctx *Task, obj any, index []*ast.Node, val V) *errchai
 					"key type is not string", node.StartPos())
 			}
 			if idx+1 == lenIdx {
+				if ast.ContainerReaches(val.V, curVal) {
+					return NewRunError(ctx,
+						"a list or map cannot be stored inside itself", node.StartPos())
+				}
 				curVal[key.V.(string)] = val.V
 				return nil
 			}
@@ -1030,6 +1034,10 @@ func changeListOrMapValue(ctx *Task, obj any, index []*ast.Node, val V) *errchai
 			}
 
 			if idx+1 == lenIdx {
+				if ast.ContainerReaches(val.V, curVal) {
+					return NewRunError(ctx,
+						"a list or map cannot be stored inside itself", node.StartPos())
+				}
 				curVal[keyInt] = val.V
 				return nil
 			}
